@@ -122,3 +122,43 @@ func VerifErrors() map[string]error {
 
 // VerifVolatile returns the package's in-memory Persistence.
 func VerifVolatile() Persistence { return newVolatile() }
+
+// VerifSetUnorderedCounter positions the sequence counter of the subscribe
+// and unsubscribe identifiers, e.g. right before its 13-bit wrap-around.
+func VerifSetUnorderedCounter(c *Client, n uint) {
+	c.unorderedTxs.Lock()
+	c.unorderedTxs.n = n
+	c.unorderedTxs.Unlock()
+}
+
+type verifOneRecord struct {
+	value   []byte
+	present bool
+}
+
+func (p verifOneRecord) Load(uint) ([]byte, error) {
+	if !p.present {
+		return nil, nil
+	}
+	return p.value, nil
+}
+func (p verifOneRecord) Save(uint, net.Buffers) error { return nil }
+func (p verifOneRecord) Delete(uint) error            { return nil }
+func (p verifOneRecord) List() ([]uint, error)        { return nil, nil }
+
+// VerifRuggedLoad runs the Load of the integrity layer on a Persistence that
+// holds the raw value (when present) under every key.
+func VerifRuggedLoad(raw []byte, present bool) ([]byte, error) {
+	r := ruggedPersistence{Persistence: verifOneRecord{raw, present}}
+	return r.Load(1)
+}
+
+// VerifBackoffObserver, when set, receives each idle time ReadBackoff decides
+// on, before the timer is started.
+var VerifBackoffObserver func(idle time.Duration)
+
+func verifBackoffIdle(idle time.Duration) {
+	if VerifBackoffObserver != nil {
+		VerifBackoffObserver(idle)
+	}
+}
